@@ -3,7 +3,7 @@
    the instance that runs, and sample_posterior as ONE function (selection of the sampler + law of the direct route).
    Executable model only; proofs in Proofs/C15_Opt.v. *)
 From CV Require Import Base.Tac Base.LinAlg Base.Cmp Base.QcLin Model.C15_MAP.
-From Coq Require Import QArith Qcanon.
+From Coq Require Import QArith Qabs Qcanon.
 Local Open Scope Qc_scope.
 
 (* ------------------------------------------------------------------------------------------------
@@ -53,6 +53,22 @@ Definition opt_entry (polish : bool) (P : pinfo) (density_has_grad : bool) (x0 :
   | None => None
   end.
 
+(* the gradient probe `density.gradient(x0)` at the top of _solve_max_point: it may succeed, raise NotImplementedError /
+   AttributeError (caught: finite differences), or raise something else (a Cauchy likelihood: TypeError) -- that exception is
+   not caught, the entry point FAILS before any solver is built *)
+Inductive grad_probe := GOk | GNotAvailable | GRaises.
+Definition probe_has_grad (p : grad_probe) : bool := match p with GOk => true | _ => false end.
+Inductive entry_result := ERet (x : qv) (ok : bool) | ERaised.
+Definition opt_entry_x (polish : bool) (P : pinfo) (probe : grad_probe) (x0 : option qv) (answers : list sc_answer)
+  : option (list sc_call * entry_result) :=
+  match probe with
+  | GRaises => Some ([], ERaised)
+  | _ => match solve_max_point_run polish P (probe_has_grad probe) x0 answers with
+         | Some (cs, x, ok) => Some (cs, ERet x ok)
+         | None => None
+         end
+  end.
+
 (* MAP as a whole: the closed form for linear-Gaussian problems within MAX_DIM_INV, else the optimiser on the posterior;
    ML: always the optimiser on the likelihood.  (route, SciPy calls) *)
 Definition entry_calls (is_ml polish : bool) (P : pinfo) (max_dim_inv : nat) (density_has_grad : bool) (x0 : option qv)
@@ -86,17 +102,22 @@ Definition mk_answers (l : list (list Q * nat)) : list sc_answer := map (fun p =
 
 (* observed: the calls at the SciPy boundary, whether the entry point returned a value (else it raised), the returned point,
    info["success"] as a truth value, label (0 direct / 1 "L-BFGS-B" / 2 other) *)
-Definition check_dispatch (is_ml polish : bool) (P : pinfo) (max_dim_inv : nat) (density_has_grad : bool) (x0 : option (list Q))
+Definition mk_probe (k : nat) : grad_probe := match k with 0%nat => GOk | 1%nat => GNotAvailable | _ => GRaises end.
+Definition check_dispatch (is_ml polish : bool) (P : pinfo) (max_dim_inv : nat) (probe : nat) (x0 : option (list Q))
            (answers : list (list Q * nat)) (calls : list (nat * nat * bool * bool * list Q))
            (returned_value : bool) (point : list Q) (success : bool) (label : nat) : bool :=
   let x0' := match x0 with Some v => Some (qvec v) | None => None end in
-  match entry_calls is_ml polish P max_dim_inv density_has_grad x0' (mk_answers answers) with
-  | Some (RDirect, _) => match calls with [] => Nat.eqb label 0 | _ => false end
-  | Some (ROptimiser, cs) =>
-      list_eqb sc_call_eqb cs (map mk_call calls) && Nat.eqb label 1 &&
-      match opt_entry polish P density_has_grad x0' (mk_answers answers) with
-      | Some (Val x, ok) => returned_value && qcl_eqb x (qvec point) && Bool.eqb ok success
-      | _ => false
+  let g := probe_has_grad (mk_probe probe) in
+  match entry_calls is_ml polish P max_dim_inv g x0' (mk_answers answers) with
+  | Some (RDirect, _) => match calls with [] => Nat.eqb label 0 && returned_value | _ => false end
+  | Some (ROptimiser, _) =>
+      match opt_entry_x polish P (mk_probe probe) x0' (mk_answers answers) with
+      | Some (cs, ERet x ok) =>
+          list_eqb sc_call_eqb cs (map mk_call calls) && Nat.eqb label 1
+          && returned_value && qcl_eqb x (qvec point) && Bool.eqb ok success
+          && match opt_entry polish P g x0' (mk_answers answers) with Some (Val x', ok') => qcl_eqb x x' && Bool.eqb ok ok' | _ => false end
+      | Some (cs, ERaised) => match calls with [] => negb returned_value | _ => false end
+      | None => false
       end
   | None => false
   end.
@@ -139,6 +160,20 @@ Definition check_opt_stop (is_ml : bool) (m n : nat) (A : list (list Q)) (b x0 :
      | Some xs => dist_within n (Q2Qc mu) gtol_bfgs (qvec x) xs
      | None => false
      end.
+
+(* ------------------------------------------------------------------------------------------------
+   4. the curvature hypothesis of C15_gauss_plus_concave_maximiser decided on the instance that runs:
+      A^T Pe A - mu I has a positive-semidefiniteness certificate (Pe the checked, symmetric inverse of the noise covariance)
+   ------------------------------------------------------------------------------------------------ *)
+Definition curvature_ok (m n : nat) (A : qm) (ce : covform) (mu : Qc) : bool :=
+  let Ce := dense_of true m ce in
+  shape_ok m n A && shape_ok m m Ce && negb (Qle_bool (this mu) 0) &&
+  match qinv Ce with
+  | Some Pe => qcll_eqb (qtranspose m Pe) Pe && psd_cert n (shift_mat n (atpa n A Pe) mu)
+  | None => false
+  end.
+Definition check_curvature (m n : nat) (A : list (list Q)) (ge : gdesc) (mu : Q) : bool :=
+  curvature_ok m n (qmat A) (mk_cov (gd_kind ge) (gd_s ge) (gd_v ge) (gd_M ge)) (Q2Qc mu).
 
 (* ------------------------------------------------------------------------------------------------
    3. sample_posterior as one function: the cascade's choice and, on the direct route, the law of the draws
